@@ -5,4 +5,4 @@ import (
 	"verif/internal/props/c04"
 )
 
-func main() { fw.Register(c04.Prop()); fw.Main() }
+func init() { fw.Register(c04.Prop()) }
